@@ -2,7 +2,7 @@
   Demeter.Manager — model of demeter/core/backtest.py (`_start`, `BacktestManager.run`).
 
   A strategy, together with the Actuator that drives it, is an arbitrary transformer of the objects it is handed:
-  the market objects attached to its broker (`M`) and the `BacktestData` object (`D`); what it leaves behind in them
+  the market objects attached to its broker (`M`) and the `BacktestData` frames (`D`); what it leaves behind in them
   and what its `finalize()` observes (`O`: account history, final positions) are arbitrary functions of what it
   found.  The manager's data flow — which objects are shared between strategies, which are copies — is modelled
   exactly; process scheduling is the parameter `assign` (which worker executes which task: arbitrary).
@@ -10,76 +10,91 @@
 import Demeter.Gen.ConstsMetrics
 namespace Demeter.Manager
 
-/-- one full backtest of one strategy: `Actuator.run()` on the attached markets `m` and the data `d` -/
+/-- one full backtest of one strategy: `Actuator.run()` on the attached markets `m` and the data frames `d`;
+    the middle component is what the run writes into the frames it was handed (added columns, overwritten values) -/
 structure Strat (M D O : Type) where
   run : M → D → M × D × O
 
-/-- how `_start` attaches the configuration's market objects to the fresh broker:
-    `shared` — the objects themselves (the code before the repair);
-    `copied` — `copy.deepcopy(market)` (the code now) -/
-inductive Attach
-  | shared
-  | copied
+/-- how `_start` hands the shared objects to a backtest -/
+structure Mode where
+  /-- `market = copy.deepcopy(market)` before `broker.add_market(market)` (false: the configured objects themselves) -/
+  marketsCopied : Bool
+  /-- `market.data = data.data[…].copy(deep=False)` (false: the shared frame itself) -/
+  dataView : Bool
+  /-- pandas copy-on-write (always on from pandas 3): nothing written through a shallow copy reaches the original.
+      Without it a column *added* to the view still stays local, but values overwritten in place are shared. -/
+  cow : Bool
 deriving Repr, DecidableEq
 
-/-- the code as it is now: read from the source of `_start` on every run (tools/consts_metrics.py) -/
-def Attach.current : Attach := if Gen.managerCopiesMarkets then .copied else .shared
+/-- the code as it is now: both flags are read from the source of `_start` on every run (tools/consts_metrics.py) -/
+def Mode.current (cow : Bool) : Mode :=
+  { marketsCopied := Gen.managerCopiesMarkets, dataView := Gen.managerDataView, cow := cow }
+
+/-- the code before the two repairs -/
+def Mode.original (cow : Bool) : Mode := { marketsCopied := false, dataView := false, cow := cow }
 
 /-- `_start(config, data, strategy, bk_config)`: state of the configuration's market objects afterwards, state of
-    the data object afterwards, the strategy's observation -/
-def start {M D O : Type} (a : Attach) (s : Strat M D O) (cfg : M) (d : D) : M × D × O :=
+    the shared data frames afterwards, the strategy's observation -/
+def start {M D O : Type} (md : Mode) (s : Strat M D O) (cfg : M) (d : D) : M × D × O :=
   let r := s.run cfg d
-  match a with
-  | .shared => (r.1, r.2.1, r.2.2)
-  | .copied => (cfg, r.2.1, r.2.2)
+  (if md.marketsCopied then cfg else r.1, if md.dataView && md.cow then d else r.2.1, r.2.2)
 
 /-- sequential path: `for strategy in self.strategies: _start_with_param_data(self.config, self.data, strategy, …)` —
     the same `config` and `data` objects are handed to every call -/
-def runSeq {M D O : Type} (a : Attach) : M → D → List (Strat M D O) → List O
+def runSeq {M D O : Type} (md : Mode) : M → D → List (Strat M D O) → List O
   | _, _, [] => []
   | cfg, d, s :: rest =>
-    let r := start a s cfg d
-    r.2.2 :: runSeq a r.1 r.2.1 rest
+    let r := start md s cfg d
+    r.2.2 :: runSeq md r.1 r.2.1 rest
 
-/-- pooled path (`Pool(processes=threads)`, start method fork).  Task `i` is executed by worker `assign i`
-    (scheduling: arbitrary).  `apply_async` pickles `(config, strategy, bk_config)` in the parent, whose objects never
-    change, so every task starts from a copy of the original configuration; `global_data` is inherited by fork, one
-    copy per worker process, and stays alive across the tasks that worker executes (`w k` = data object of worker `k`). -/
-def runPool {M D O : Type} (a : Attach) (cfg : M) (assign : Nat → Nat) : (Nat → D) → Nat → List (Strat M D O) → List O
+/-- pooled path on Linux/macOS (`set_start_method("fork")`, `Pool(processes=threads)`).  Task `i` is executed by worker
+    `assign i` (scheduling: arbitrary).  `apply_async` pickles `(config, strategy, bk_config)` in the parent, whose
+    objects never change, so every task starts from a copy of the original configuration; `global_data` is inherited
+    by fork, one copy per worker process, and stays alive across the tasks that worker executes (`w k` = data of worker `k`). -/
+def runPool {M D O : Type} (md : Mode) (cfg : M) (assign : Nat → Nat) : (Nat → D) → Nat → List (Strat M D O) → List O
   | _, _, [] => []
   | w, i, s :: rest =>
     let k := assign i
-    let r := start a s cfg (w k)
-    r.2.2 :: runPool a cfg assign (fun j => if j = k then r.2.1 else w j) (i + 1) rest
+    let r := start md s cfg (w k)
+    r.2.2 :: runPool md cfg assign (fun j => if j = k then r.2.1 else w j) (i + 1) rest
+
+/-- pooled path on Windows: `data` is an argument of the task, pickled per task like the configuration -/
+def runPoolArgs {M D O : Type} (md : Mode) (cfg : M) (d : D) (strats : List (Strat M D O)) : List O :=
+  strats.map (fun s => (start md s cfg d).2.2)
 
 /-- outcome of `BacktestManager.run()`: the observations in the order of `strategies`, or the exception class -/
 inductive Outcome (O : Type)
   | done (obs : List O)
   | raised (cls : String)
 
-/-- `BacktestManager.run()`.  `cpu` = `cpu_count()`, `ctxSet` = a multiprocessing start method has already been fixed
-    in this process (a second pooled `run()` raises), `cfg`/`d` = `None` when not set. -/
-def managerRun {M D O : Type} (a : Attach) (threads cpu : Nat) (ctxSet : Bool) (assign : Nat → Nat)
+/-- `BacktestManager.run()`.  `cpu` = `cpu_count()`, `windows` = `"Windows" in platform.system()`, `ctxSet` = a
+    multiprocessing start method has already been fixed in this process (a second forked `run()` raises),
+    `cfg`/`d` = `None` when not set. -/
+def managerRun {M D O : Type} (md : Mode) (threads cpu : Nat) (windows ctxSet : Bool) (assign : Nat → Nat)
     (cfg : Option M) (d : Option D) (strats : List (Strat M D O)) : Outcome O :=
   match cfg, d with
   | none, _ => .raised "RuntimeError"            -- "Config has not set"
   | some _, none => .raised "RuntimeError"       -- "Data has not set"
   | some cfg, some d =>
     if strats.length < 1 then .done []
-    else if strats.length = 1 ∨ threads = 1 then .done (runSeq a cfg d strats)
+    else if strats.length = 1 ∨ threads = 1 then .done (runSeq md cfg d strats)
     else if threads > cpu then .raised "TypeError"   -- `"Threads should lower than " + cpu_count()`: str + int
+    else if windows then
+      if threads = 0 then .raised "ValueError"       -- Pool(processes=0)
+      else .done (runPoolArgs md cfg d strats)
     else if ctxSet then .raised "RuntimeError"       -- set_start_method("fork"): context has already been set
     else if threads = 0 then .raised "ValueError"    -- Pool(processes=0)
-    else .done (runPool a cfg assign (fun _ => d) 0 strats)
+    else .done (runPool md cfg assign (fun _ => d) 0 strats)
 
 /-- the specification: every strategy alone on a fresh configuration and the original data -/
 def spec {M D O : Type} (cfg : M) (d : D) (strats : List (Strat M D O)) : List O :=
   strats.map (fun s => (s.run cfg d).2.2)
 
-/-! ### the projection the driver runs: number of open positions per market -/
+/-! ### the projection the driver runs: number of open positions per market, number of indicator columns -/
 
-/-- a scripted strategy that opens `da` positions on the first and `db` on the second market and observes the totals -/
-def countStrat (da db : Nat) : Strat (Nat × Nat) Unit (Nat × Nat) where
-  run m d := ((m.1 + da, m.2 + db), d, (m.1 + da, m.2 + db))
+/-- a scripted strategy that opens `da` positions on the first and `db` on the second market, adds `dc` columns to the
+    data frame it was handed, and observes the totals it ends with -/
+def countStrat (da db dc : Nat) : Strat (Nat × Nat) Nat (Nat × Nat × Nat) where
+  run m d := ((m.1 + da, m.2 + db), d + dc, (m.1 + da, m.2 + db, d + dc))
 
 end Demeter.Manager
